@@ -66,14 +66,14 @@ type lgSet struct {
 }
 
 type lgCell struct {
-	Has  bool  `json:"has"`
-	Vals []int `json:"vals"`
-	Rv   []int `json:"rv"`
-	Min  int   `json:"min"`
-	Max  int   `json:"max"`
-	Sum  int   `json:"sum"`
-	N    int   `json:"n"`
-	Haz  bool  `json:"haz"`
+	Has  bool   `json:"has"`
+	Vals []int  `json:"vals"`
+	Rv   []int  `json:"rv"`
+	Min  int    `json:"min"`
+	Max  int    `json:"max"`
+	Sum  int    `json:"sum"`
+	N    int    `json:"n"`
+	Haz  string `json:"haz"`
 }
 
 type lgRender struct {
@@ -125,12 +125,13 @@ type lgExp struct {
 }
 
 type lgCase struct {
-	ID   json.RawMessage `json:"id"`
-	Fam  string          `json:"fam"`
-	Cfgs [][]lgLine      `json:"cfgs"`
-	Set  lgSet           `json:"set"`
-	Skip string          `json:"skip"`
-	Exp  lgExp           `json:"exp"`
+	ID    json.RawMessage `json:"id"`
+	Fam   string          `json:"fam"`
+	Cfgs  [][]lgLine      `json:"cfgs"`
+	Set   lgSet           `json:"set"`
+	Skip  string          `json:"skip"`
+	Fence string          `json:"fence"`
+	Exp   lgExp           `json:"exp"`
 }
 
 func famLegacy(mode string, args []string) error {
@@ -168,7 +169,10 @@ var lgConfigNames = [][3]string{
 	{"/tmp/run/before", "/tmp/run/after", "/tmp/run/later"},
 	{"b", "a", "c"},
 }
-var lgScales = []float64{1, 1, 1000, 0.5, 0.001, 1e6, 4}
+var lgScales = []float64{1, 1, 1000, 0.5, 0.001, 1e6, 4, 0.3}
+
+// scales that keep the code's fence arithmetic exact (integers and powers of two)
+var lgExactScales = []float64{1, 1, 1000, 0.5, 1e6, 4}
 
 func init() {
 	for _, s := range lgNameSchemes {
@@ -188,6 +192,9 @@ type lgConc struct {
 	configs []string
 	scale   float64
 	useAPI  bool // AddResults instead of AddConfig
+	nameLab bool // (API only) the label is a name label of the result, not a file label
+	arch    bool // every configuration carries "goarch: amd64"
+	split2  bool // SplitBy names goarch as well (needs arch)
 	nilTest bool // leave DeltaTest nil (documented default: U-test)
 	rng     *rand.Rand
 }
@@ -211,18 +218,34 @@ func lgConcretise(c *lgCase) *lgConc {
 		k.configs = append(k.configs, cn[i])
 	}
 	k.scale = lgScales[rng.Intn(len(lgScales))]
+	if c.Fence == "flat" {
+		// a value sits exactly on a fence whose quartiles are data values: the comparison
+		// is exact as long as the values stay integers or dyadic
+		k.scale = lgExactScales[rng.Intn(len(lgExactScales))]
+	}
 	k.useAPI = rng.Intn(3) == 0
+	k.nameLab = k.useAPI && rng.Intn(2) == 0
+	k.arch = rng.Intn(3) == 0
+	k.split2 = k.arch && c.Set.Split && rng.Intn(2) == 0
 	k.nilTest = rng.Intn(2) == 0
 	return k
 }
 
 func (k *lgConc) val(v int) float64 { return float64(v) * k.scale }
 
+// group is the group text the library derives for label value g (0 = label not set)
 func (k *lgConc) group(g int) string {
-	if g == 0 {
-		return ""
+	out := ""
+	if g != 0 {
+		out = k.key + ":" + k.labvals[g-1]
 	}
-	return k.key + ":" + k.labvals[g-1]
+	if k.split2 {
+		if out != "" {
+			out += " "
+		}
+		out += "goarch:amd64"
+	}
+	return out
 }
 
 // number spelling: the text must parse back to exactly val(v)
@@ -287,6 +310,9 @@ func lgBuild(c *lgCase, k *lgConc) (*benchstat.Collection, []string) {
 	}
 	if c.Set.Split {
 		col.SplitBy = []string{k.key}
+		if k.split2 {
+			col.SplitBy = append(col.SplitBy, "goarch")
+		}
 	}
 	var texts []string
 	for ci, cfg := range c.Cfgs {
@@ -294,8 +320,9 @@ func lgBuild(c *lgCase, k *lgConc) (*benchstat.Collection, []string) {
 		var results []*benchfmt.Result
 		cur := 0
 		labels := benchfmt.Labels{}
-		if k.rng.Intn(4) == 0 {
-			buf.WriteString("goarch: amd64\n") // an unrelated label
+		nameLabels := benchfmt.Labels{}
+		if k.arch {
+			buf.WriteString("goarch: amd64\n") // a constant label
 			labels = labels.Copy()
 			labels["goarch"] = "amd64"
 		}
@@ -305,12 +332,18 @@ func lgBuild(c *lgCase, k *lgConc) (*benchstat.Collection, []string) {
 			}
 			if l.G != cur {
 				labels = labels.Copy()
+				nameLabels = benchfmt.Labels{}
 				if l.G == 0 {
 					fmt.Fprintf(&buf, "%s:\n", k.key)
 					delete(labels, k.key)
 				} else {
 					fmt.Fprintf(&buf, "%s: %s\n", k.key, k.labvals[l.G-1])
-					labels[k.key] = k.labvals[l.G-1]
+					if k.nameLab {
+						delete(labels, k.key)
+						nameLabels[k.key] = k.labvals[l.G-1]
+					} else {
+						labels[k.key] = k.labvals[l.G-1]
+					}
 				}
 				cur = l.G
 			}
@@ -329,7 +362,7 @@ func lgBuild(c *lgCase, k *lgConc) (*benchstat.Collection, []string) {
 				}
 			}
 			buf.WriteString(line.String() + "\n")
-			results = append(results, &benchfmt.Result{Labels: labels, Content: line.String(), LineNum: 1})
+			results = append(results, &benchfmt.Result{Labels: labels, NameLabels: nameLabels, Content: line.String(), LineNum: 1})
 		}
 		if k.rng.Intn(4) == 0 {
 			buf.WriteString("PASS\n")
@@ -702,6 +735,7 @@ func lgCompareCmp(c *lgCase, k *lgConc, unit string, er *lgRow, or *benchstat.Ro
 	oldR, newR := lgFloats(k, er.Cells[0].Rv), lgFloats(k, er.Cells[1].Rv)
 	// the p-value of the chosen test on the MODEL's retained samples
 	p := -1.0
+	libP := math.NaN()
 	pIsExact := false
 	switch c.Set.Test {
 	case "u":
@@ -710,6 +744,7 @@ func lgCompareCmp(c *lgCase, k *lgConc, unit string, er *lgRow, or *benchstat.Ro
 		res, lerr := stats.MannWhitneyUTest(append([]float64(nil), oldR...), append([]float64(nil), newR...), stats.LocationDiffers)
 		if res != nil {
 			lp = res.P
+			libP = lp
 		}
 		if (cmp.Err == "eq") != (lerr == stats.ErrSamplesEqual) || (cmp.Err == "" && lerr != nil) {
 			return false, lgF("utest-error-class", "%s: model says error %q, stats.MannWhitneyUTest(%v, %v) = (%v, %v)", where, cmp.Err, oldR, newR, lp, lerr), ""
@@ -744,13 +779,20 @@ func lgCompareCmp(c *lgCase, k *lgConc, unit string, er *lgRow, or *benchstat.Ro
 		shown = true
 	case "no":
 		shown = false
+	case "edge":
+		// p equals alpha as rationals: not below alpha.  Judged only if the float p equals the
+		// float alpha too (otherwise the verdict hinges on the last ulp of the test).
+		if libP != alpha {
+			return false, nil, "p on alpha"
+		}
+		shown = false
 	case "lib":
-		if math.IsNaN(p) || math.Abs(p-alpha) <= 1e-9 {
+		if math.IsNaN(p) || (p != alpha && math.Abs(p-alpha) <= 1e-9) {
 			return false, nil, "library p-value on alpha"
 		}
 		shown = p < alpha
 	default:
-		lgBad("case not marked skip although sig=%q", cmp.Sig)
+		lgBad("unknown gate class %q", cmp.Sig)
 	}
 	want := cmp.No
 	if shown {
